@@ -204,6 +204,9 @@ def _save_file(
         assert tensor is not None
         if tensor.nbytes < size_threshold_bytes:
             continue
+        # The entries of the file are named after the tensors and mapped back to the
+        # values by name: make sure the tensor's name is the same as the value's name
+        tensor.name = value.name
         tensors_to_save.append(tensor)
         values_to_save.append(value)
 
